@@ -350,7 +350,7 @@ func c12RunSched(line string) string {
 			time.Sleep(60 * time.Millisecond)
 			return status()
 		}
-		patience := 1500 * time.Millisecond
+		patience := 2500 * time.Millisecond
 		if atomic.LoadInt32(&c12Deviations) >= 3 {
 			patience = 300 * time.Millisecond // the real code has left the expected path repeatedly: stop being patient
 		}
